@@ -132,7 +132,9 @@ def gen_spec(rng: random.Random, feat=None):
     fnames = []
     for mi in order:
         ext = 'yaml' if feat['yaml'] and rng.random() < 0.4 else 'json'
-        fnames.append(f'cfg/{rng.choice(["conf", "c", "pipeline", "x"])}{mi}.{ext}')
+        # config names with dots in them (`experiment.v1.yaml` is the config `experiment.v1`)
+        dotted = rng.choice(['', '', '', '.v1', '.v2', '.2024.final']) if feat.get('dotted_file_names', True) else ''
+        fnames.append(f'cfg/{rng.choice(["conf", "c", "pipeline", "x"])}{mi}{dotted}.{ext}')
     mounts = {}   # (k, j) -> as | None
     extra_mounts = []   # (k, j, as): the same file mounted a second time under another namespace
     # every namespace word is used once per spec: a reference that starts with the declaring task's own namespace is read as
